@@ -46,6 +46,25 @@ func drawC06(t *rapid.T, x *X) *Case {
 	c := drawBase(t, x, 40)
 	// pure plan: predicates are functions of (id, labels); faults fire on every invocation
 	c.Plan = drawPlan(t, x.G.Spec, 2, true, false)
+	// a third of the cases: many blocks report an error, each its own message (an expression
+	// evaluated again after backtracking reports its errors again in the plain parse, once in
+	// the memoized one: the returned lists must still agree)
+	if ids := codeIDs(x.G.Spec); len(ids) > 0 {
+		switch gspec.U(t, 6, "manyfaults") {
+		case 0:
+			c.Plan.Faults = nil
+			for _, id := range ids {
+				c.Plan.Faults = append(c.Plan.Faults, vrt.Fault{ID: id, Kind: "err", Msg: fmt.Sprintf("e%d", id)})
+			}
+		case 1:
+			c.Plan.Faults = nil
+			for _, id := range ids {
+				if gspec.U(t, 2, "faulthere") == 0 {
+					c.Plan.Faults = append(c.Plan.Faults, vrt.Fault{ID: id, Kind: "err", Msg: fmt.Sprintf("e%d", id%3)})
+				}
+			}
+		}
+	}
 	k := 1 + gspec.U(t, 7, "optcombo") // at least one option on
 	c.Opts.Memoize = k&1 != 0
 	c.Opts.Stats = k&2 != 0
@@ -67,6 +86,29 @@ func codeErrors(r *vrt.Response) []string {
 		out = append(out, e.Msg)
 	}
 	return out
+}
+
+// lrMemoErrFinding recognises the recorded finding KF-C06-LRMEMOERR: an invocation of a
+// left-recursive rule drops the errors of its final, non-extending growth attempt (and of an
+// invocation that fails outright) but keeps the memo entries made meanwhile; when the parse
+// reaches such an entry again, the plain parse runs the code block again and reports its
+// error, the memoized parse does not. The finding covers exactly: the memoized list is the
+// plain list minus messages that the left-recursive invocations dropped.
+func lrMemoErrFinding(ref *refpeg.Result, plain, memo []string) bool {
+	if len(ref.Stats.LRDroppedErrs) == 0 || len(memo) >= len(plain) {
+		return false
+	}
+	j := 0
+	for _, m := range plain {
+		if j < len(memo) && memo[j] == m {
+			j++
+			continue
+		}
+		if ref.Stats.LRDroppedErrs[m] == 0 {
+			return false
+		}
+	}
+	return j == len(memo)
 }
 
 func checkC06(x *X, c *Case, strict bool) *Outcome {
@@ -118,6 +160,9 @@ func checkC06(x *X, c *Case, strict bool) *Outcome {
 		if (r0.Value == nil) != (r1.Value == nil) || vrt.Canon(r0.Value) != vrt.Canon(r1.Value) {
 			o.Viol = viol(pk, c, "options_change_result", fmt.Sprintf("value with default options %s, with %+v %s", trunc(vrt.Canon(r0.Value), 300), c.Opts, trunc(vrt.Canon(r1.Value), 300)), describeResp(r0), describeResp(r1))
 			return o
+		}
+		if c.Opts.Memoize && x.KF["KF-C06-LRMEMOERR"] && !strict && lrMemoErrFinding(ref, codeErrors(r0), codeErrors(r1)) {
+			return &Outcome{Excluded: "KF-C06-LRMEMOERR"}
 		}
 		if r0.HasErr != r1.HasErr {
 			o.Viol = viol(pk, c, "options_change_result", fmt.Sprintf("error presence differs: default %q, with options %q", trunc(r0.ErrText, 200), trunc(r1.ErrText, 200)), describeResp(r0), describeResp(r1))
